@@ -273,6 +273,26 @@ Definition realise_index (in_timezones : bool) (d : dt) : dt :=
   end.
 
 (* ------------------------------------------------------------------------------------------ *)
+(* which columns and which index a read returns (api._get_index, to_pandas, _pre_allocate)      *)
+(* ------------------------------------------------------------------------------------------ *)
+(* the `index` argument of to_pandas *)
+Inductive idxarg := INone | IFalse | INames (l : list bytes).
+
+(* stored = pandas_metadata['index_columns'] as (name, is a {"kind": "range"} entry) *)
+Definition get_index (stored : list (bytes * bool)) (arg : idxarg) : list bytes :=
+  match arg with
+  | INone => map fst (filter (fun e => negb (snd e)) stored)
+  | IFalse => []
+  | INames l => l
+  end.
+
+(* columns = request or self.columns + list(self.cats); columns += [i for i in index if i not in columns];
+   _pre_allocate: cols = [c for c in columns if c not in index] *)
+Definition frame_columns (cols cats : list bytes) (request : option (list bytes)) (idx : list bytes) : list bytes :=
+  let want := match request with Some l => l | None => cols ++ cats end in
+  filter (fun c => negb (memb c idx)) (want ++ filter (fun i => negb (memb i want)) idx).
+
+(* ------------------------------------------------------------------------------------------ *)
 (* counts                                                                                     *)
 (* ------------------------------------------------------------------------------------------ *)
 (* count() = sum(rg.num_rows for rg in row_groups); to_pandas allocates that many rows *)
